@@ -270,6 +270,8 @@ pub struct Execution {
     pub stuck_in: Vec<Option<String>>,
     #[cfg(prometheus_verif)]
     pub layout: Option<crate::hb::Layout>,
+    /// the layout hook named one memory word twice (instrumentation broken: nothing can be concluded)
+    pub layout_broken: bool,
 }
 
 pub fn execute(sc: &Scenario, job: &Job, case: u64) -> Execution {
@@ -279,11 +281,22 @@ pub fn execute(sc: &Scenario, job: &Job, case: u64) -> Execution {
     let current: Vec<Mutex<Option<String>>> = (0..n).map(|_| Mutex::new(None)).collect();
     let cfg = job.run_cfg(case, job.engine == Engine::E2);
     // the child must exist before its layout can be read; creating it up front is part of setup
+    #[allow(unused_mut)]
+    let mut layout_broken = false;
     #[cfg(prometheus_verif)]
     // (for a vector child this creates the child up front on every other case, which trades the creation race
     // for trace monitoring of that case)
     let layout = if job.engine == Engine::E2 && (!sc.in_vec || case % 2 == 0) {
         let l = world.handle().verif_layout();
+        // the layout accessor is instrumentation: every cell it names must be a different word, otherwise
+        // the trace monitors would be watching the wrong memory (inconclusive, never a verdict)
+        let mut cells: Vec<usize> = vec![l.shard_and_count, l.collect_lock, l.shards[0].count, l.shards[1].count, l.shards[0].sum, l.shards[1].sum];
+        cells.extend(l.shards[0].buckets.iter().cloned());
+        cells.extend(l.shards[1].buckets.iter().cloned());
+        let total = cells.len();
+        cells.sort_unstable();
+        cells.dedup();
+        layout_broken = cells.len() != total;
         Some(crate::hb::Layout {
             shard_and_count: l.shard_and_count,
             collect_lock: l.collect_lock,
@@ -349,6 +362,7 @@ pub fn execute(sc: &Scenario, job: &Job, case: u64) -> Execution {
         stuck_in,
         #[cfg(prometheus_verif)]
         layout,
+        layout_broken,
     }
 }
 
@@ -595,6 +609,10 @@ pub fn run_case(job: &Job, case: u64, part: &mut Part) {
     let min_snaps = if is_c03 { 3 + rng.usize_below(if job.thorough { 8 } else { 3 }) } else { 1 + rng.usize_below(3) };
     let sc = generate(&mut rng, job, min_snaps);
     let ex = execute(&sc, job, case);
+    if ex.layout_broken {
+        part.inconclusive = Some("the histogram layout hook names the same memory word twice: the trace monitors cannot be trusted".into());
+        return;
+    }
     part.evaluations += 1;
     account_outcome(part, job, case, &ex.outcome, "histogram");
     let detail = jobj! {"scenario" => scenario_json(&sc), "history" => history_json(&ex.history), "final" => history_json(&ex.finals)};
